@@ -68,8 +68,11 @@ pub struct Scn {
     pub driver_own_error: bool,
     /// client: one more thread drops the last SendRequest (H3_NO_ERROR)
     pub dropper: bool,
-    /// server: the application gives the connection up right after the race - the driver is dropped, not polled again
+    /// the application gives the connection up right after the race - the driver is dropped, not polled again
     pub drop_driver: bool,
+    /// server: the connection is polled the way h3-webtransport's `accept_uni()` does it - through
+    /// `inner.poll_accept_recv()` alone, from a task that has not polled it before (a session moved to a task of its own)
+    pub recv_only: bool,
 }
 
 fn raise_code(r: Raise) -> u64 {
@@ -111,7 +114,7 @@ fn poll_driver(d: &mut DriverObj, cx: &mut Context<'_>) -> Poll<ConnInfo> {
 }
 
 fn scn_json(s: &Scn) -> Value {
-    json!({"role": if s.server { "server" } else { "client" }, "driver_polled_before": s.driver_polled_before, "streams": s.streams.iter().map(|r| format!("{r:?}")).collect::<Vec<_>>(), "transport_close": s.transport_close, "driver_own_error": s.driver_own_error, "dropper": s.dropper, "drop_driver": s.drop_driver})
+    json!({"role": if s.server { "server" } else { "client" }, "driver_polled_before": s.driver_polled_before, "streams": s.streams.iter().map(|r| format!("{r:?}")).collect::<Vec<_>>(), "transport_close": s.transport_close, "driver_own_error": s.driver_own_error, "dropper": s.dropper, "drop_driver": s.drop_driver, "recv_only": s.recv_only})
 }
 
 fn bad_bytes(r: Raise, server: bool) -> (Vec<u8>, bool) {
@@ -270,14 +273,28 @@ fn run_scn_inner(s: &Scn, t: &mut Tape, ctx: &mut Ctx) -> Verdict {
     ex.run(&net, &mut NoActor, &mut Tape::new(&empty), Style::Eager, 100_000);
     // wake-ups caused by the deliveries above are real: the driver's flag may legitimately be set already
     // ---------------------------------------------------------------- race
+    // (recv_only: the task that polls from here on is not the one that has polled during the preparation)
+    let (dflag, dwaker) = if s.recv_only {
+        let f = Arc::new(Flag(AtomicBool::new(false)));
+        (f.clone(), Waker::from(f))
+    } else {
+        (dflag, dwaker)
+    };
     let mut jobs: Vec<Box<dyn FnOnce() -> Out>> = Vec::new();
     let stream_flags: Vec<Arc<Flag>> = (0..k).map(|_| Arc::new(Flag(AtomicBool::new(false)))).collect();
     {
         let w = dwaker.clone();
         let mut d = driver;
+        let recv_only = s.recv_only;
         jobs.push(Box::new(move || {
             let mut cx = Context::from_waker(&w);
-            let r = poll_driver(&mut d, &mut cx);
+            let r = match (&mut d, recv_only) {
+                (DriverObj::Server(c), true) => match c.inner.poll_accept_recv(&mut cx) {
+                    Ok(()) => Poll::Pending,
+                    Err(e) => Poll::Ready(conn_info(&e)),
+                },
+                _ => poll_driver(&mut d, &mut cx),
+            };
             Out::Driver(d, r)
         }));
     }
@@ -389,7 +406,8 @@ fn run_scn_inner(s: &Scn, t: &mut Tape, ctx: &mut Ctx) -> Verdict {
             }
         }
         drop(stream_objs);
-        ctx.class("role_server");
+        drop(sr_keep);
+        ctx.class(if s.server { "role_server" } else { "role_client" });
         ctx.class(if seen { "driver_dropped_after_it_saw_the_error" } else { "driver_dropped_before_it_saw_the_error" });
         ctx.nontrivial(&(s.clone(), log.clone()));
         return Ok(());
@@ -572,9 +590,16 @@ fn variants_opt(kmax: usize, all_droppers: bool) -> Vec<Scn> {
                         if internal {
                             st[0] = Raise::TransportInternal;
                         }
-                        v.push(Scn { server, driver_polled_before: polled, streams: st.clone(), transport_close: tc, driver_own_error: own, dropper, drop_driver: false });
+                        v.push(Scn { server, driver_polled_before: polled, streams: st.clone(), transport_close: tc, driver_own_error: own, dropper, drop_driver: false, recv_only: false });
+                        if !server && tc.is_none() && !own && !internal && !dropper {
+                            // the client driver has no other way of being given up either
+                            v.push(Scn { server, driver_polled_before: polled, streams: st.clone(), transport_close: tc, driver_own_error: own, dropper, drop_driver: true, recv_only: false });
+                        }
                         if server && tc.is_none() && !own && !internal {
-                            v.push(Scn { server, driver_polled_before: polled, streams: st, transport_close: tc, driver_own_error: own, dropper, drop_driver: true });
+                            v.push(Scn { server, driver_polled_before: polled, streams: st.clone(), transport_close: tc, driver_own_error: own, dropper, drop_driver: true, recv_only: false });
+                            if k == 1 {
+                                v.push(Scn { server, driver_polled_before: polled, streams: st, transport_close: tc, driver_own_error: own, dropper, drop_driver: false, recv_only: true });
+                            }
                         }
                     }
                 }
@@ -787,7 +812,7 @@ fn exhaustive(ctx: &mut Ctx, shard: usize, nshards: usize) -> Verdict {
 
 fn parse_scn(v: &Value) -> Scn {
     let streams = v["streams"].as_array().map(|a| a.iter().map(|x| match x.as_str() { Some("Qpack") => Raise::Qpack, Some("FrameError") => Raise::FrameError, Some("Transport") => Raise::Transport, Some("TransportInternal") => Raise::TransportInternal, _ => Raise::FrameUnexpected }).collect()).unwrap_or_default();
-    Scn { server: v["role"].as_str() == Some("server"), driver_polled_before: v["driver_polled_before"].as_bool().unwrap_or(false), streams, transport_close: v["transport_close"].as_u64(), driver_own_error: v["driver_own_error"].as_bool().unwrap_or(false), dropper: v["dropper"].as_bool().unwrap_or(false), drop_driver: v["drop_driver"].as_bool().unwrap_or(false) }
+    Scn { server: v["role"].as_str() == Some("server"), driver_polled_before: v["driver_polled_before"].as_bool().unwrap_or(false), streams, transport_close: v["transport_close"].as_u64(), driver_own_error: v["driver_own_error"].as_bool().unwrap_or(false), dropper: v["dropper"].as_bool().unwrap_or(false), drop_driver: v["drop_driver"].as_bool().unwrap_or(false), recv_only: v["recv_only"].as_bool().unwrap_or(false) }
 }
 
 fn run_direct(d: &Value, ctx: &mut Ctx) -> Verdict {
